@@ -48,6 +48,10 @@ func inBubble(t *testing.T, f func()) {
 
 type runResult struct {
 	fail           func() // non-nil: a violation to report outside the bubble
+	fatal          string // non-empty: the node stopped itself (logger.Fatal) or panicked while processing honest input
+	fatalStage     string
+	prologueOwn    string // non-empty: the node rejected a block of its own during the (fixed, monitor-free) prologue
+	prologueStage  string
 	stats          map[string]int
 	digest         string
 	nOps           int
@@ -111,19 +115,40 @@ func runChainP(tt *testing.T, tr *simkit.Trace, cfg NodeConfig, regime Regime, p
 			}
 		}()
 		r := &Runner{W: w, N: n, Head: w.Gen, Stats: res.stats}
+		// every step hands the node honest input only (its own blocks, transactions of the harness clients, and byzantine
+		// blocks inside their own guard): a node that stops itself or panics here is reported, not treated as harness trouble
+		step := func(op Op, stage string) bool {
+			ok := false
+			if perr := guarded(func() error { ok = r.Step(op); return nil }); perr != nil {
+				res.fatal, res.fatalStage = perr.Error(), stage+" op="+opKindNames[op.Kind]
+				return false
+			}
+			return ok
+		}
+		r.Hooks.OwnBlockRejected = func(w *World, n *Node, bi *BlockInfo, stage string, err error) {
+			res.prologueStage = stage
+			res.prologueOwn = fmt.Sprintf("block #%d %x (order %d) built by the node's own worker during the prologue was rejected by the same node at %s: %v", bi.Number, bi.Hash[:6], bi.Order, stage, err)
+		}
 		for _, op := range Prologue(prologue) { // prologue runs without monitors
-			if !r.Step(op) {
+			if !step(op, "prologue") {
+				if res.fatal != "" || res.prologueOwn != "" {
+					return
+				}
 				panic("harness: prologue failed: " + fmt.Sprint(res.stats))
 			}
 		}
+		r.Hooks = Hooks{}
 		res.prologueBlocks = len(w.Tips)
 		r.Hooks = mk(r)
 		for _, op := range tape {
 			tr.Event("op %s %d %d %d %d", opKindNames[op.Kind], op.A, op.B, op.C, op.D)
 			res.nOps++
-			if !r.Step(op) || r.ended {
+			if !step(op, "tape") || r.ended {
 				break
 			}
+		}
+		if res.fatal != "" {
+			return
 		}
 		if r.Hooks.End != nil && !r.ended {
 			r.Hooks.End(w)
@@ -254,6 +279,15 @@ func chainPropertyOpt(t *testing.T, prop string, engines bool, prologues []int, 
 		})
 		recordRun(res, c)
 		NodeLog.Reset()
+		if v == nil && res.fatal != "" {
+			v = &violation{"node-stops-on-honest-input", "stage=" + res.fatalStage, "the node stopped itself (logger.Fatal) or panicked while processing honest input: " + res.fatal}
+		}
+		if v == nil && res.prologueOwn != "" {
+			if prop != "C07" { // only C07 states that own blocks validate; for the others the run cannot be set up
+				panic("harness: prologue failed: " + res.prologueOwn)
+			}
+			v = &violation{"own-block-rejected", "stage=" + res.prologueStage + " in=prologue", res.prologueOwn}
+		}
 		if v != nil {
 			if simkit.Violation(rt, tr, prop, v.class, v.witness, fmt.Sprintf("%s\nprologue=%d tape=%v", v.detail, c.Prologue, renderTape(c.Tape))) {
 				panic(simkit.KnownReached{})
